@@ -68,6 +68,7 @@ bool make(std::string const& v, int w, int h, uint64_t cs, Bytes& out)
     info_t i = opts(v);
     std::string base = v.substr(0, v.find('_'));
     if (base == "gray1") return write_tiff<gil::gray1_image_t>(w, h, cs, out, i);
+    if (base == "gray2") return write_tiff<gil::gray2_image_t>(w, h, cs, out, i);
     if (base == "gray4") return write_tiff<gil::gray4_image_t>(w, h, cs, out, i);
     if (base == "gray8") return write_tiff<gil::gray8_image_t>(w, h, cs, out, i);
     if (base == "gray16") return write_tiff<gil::gray16_image_t>(w, h, cs, out, i);
@@ -75,6 +76,7 @@ bool make(std::string const& v, int w, int h, uint64_t cs, Bytes& out)
     if (base == "rgb8") return write_tiff<gil::rgb8_image_t>(w, h, cs, out, i);
     if (base == "rgb16") return write_tiff<gil::rgb16_image_t>(w, h, cs, out, i);
     if (base == "rgba8") return write_tiff<gil::rgba8_image_t>(w, h, cs, out, i);
+    if (base == "rgba16") return write_tiff<gil::rgba16_image_t>(w, h, cs, out, i);
     if (base == "cmyk8") return write_tiff<gil::cmyk8_image_t>(w, h, cs, out, i);
     if (base == "pal8" || base == "miniswhite8" || base == "rgb8planar") return make_libtiff(base, w, h, cs, out);
     return false;
@@ -82,9 +84,9 @@ bool make(std::string const& v, int w, int h, uint64_t cs, Bytes& out)
 
 std::vector<Variant> const& g_fmt_variants()
 {
-    static std::vector<Variant> const v = {{"gray1", "gray1"}, {"gray1_tile", "gray1"}, {"gray4", "gray4"}, {"gray8", "gray8"}, {"gray8_lzw", "gray8"}, {"gray8_tile", "gray8"},
+    static std::vector<Variant> const v = {{"gray1", "gray1"}, {"gray1_tile", "gray1"}, {"gray2", "gray2"}, {"gray4", "gray4"}, {"gray8", "gray8"}, {"gray8_lzw", "gray8"}, {"gray8_tile", "gray8"},
                   {"gray16_deflate", "gray16"}, {"gray32f", "gray32f"}, {"rgb8", "rgb8"}, {"rgb8_tile", "rgb8"}, {"rgb8_lzw", "rgb8"}, {"rgb8_packbits", "rgb8"},
-                  {"rgb8planar", "rgb8"}, {"rgb16", "rgb16"}, {"rgba8", "rgba8"}, {"rgba8_tile_lzw", "rgba8"}, {"cmyk8", "cmyk8"},
+                  {"rgb8planar", "rgb8"}, {"rgb16", "rgb16"}, {"rgba8", "rgba8"}, {"rgba8_tile_lzw", "rgba8"}, {"rgba16", "rgba16"}, {"cmyk8", "cmyk8"},
                   {"pal8", "rgb16"}, {"miniswhite8", "gray8"}};
     return v;
 }
@@ -105,6 +107,7 @@ Outcome read(ReadSpec const& s, Bytes& b)
     else
     {
         if (s.type == "gray1") return R::native_entry<gil::gray1_image_t>(s, b, ext);
+        if (s.type == "gray2") return R::native_entry<gil::gray2_image_t>(s, b, ext);
         if (s.type == "gray4") return R::native_entry<gil::gray4_image_t>(s, b, ext);
         if (s.type == "gray8") return R::native_entry<gil::gray8_image_t>(s, b, ext);
         if (s.type == "gray16") return R::native_entry<gil::gray16_image_t>(s, b, ext);
@@ -112,6 +115,7 @@ Outcome read(ReadSpec const& s, Bytes& b)
         if (s.type == "rgb8") return R::native_entry<gil::rgb8_image_t>(s, b, ext);
         if (s.type == "rgb16") return R::native_entry<gil::rgb16_image_t>(s, b, ext);
         if (s.type == "rgba8") return R::native_entry<gil::rgba8_image_t>(s, b, ext);
+        if (s.type == "rgba16") return R::native_entry<gil::rgba16_image_t>(s, b, ext);
         if (s.type == "cmyk8") return R::native_entry<gil::cmyk8_image_t>(s, b, ext);
     }
     Outcome o; o.cls = "skipped:type"; return o;
@@ -162,6 +166,7 @@ Outcome roundtrip(Json const& plan)
         if (o.s == "tile32") { info._is_tiled = true; info._tile_width = 32; info._tile_length = 16; }
     }
     if (v == "gray1") return RoundTrip<Tag, gil::gray1_image_t, false, false, 0x7u>::run(plan, "tif", info);
+    if (v == "gray2") return RoundTrip<Tag, gil::gray2_image_t, false, false, 0x7u>::run(plan, "tif", info);
     if (v == "gray4") return RoundTrip<Tag, gil::gray4_image_t, false, false, 0x7u>::run(plan, "tif", info);
     if (v == "gray8") return RoundTrip<Tag, gil::gray8_image_t, false>::run(plan, "tif", info);
     if (v == "gray16") return RoundTrip<Tag, gil::gray16_image_t, false>::run(plan, "tif", info);
@@ -193,6 +198,7 @@ Outcome paths(Json const& plan)
     for (auto const& x : g_fmt_variants()) if (x.name == v) native = x.native;
     cfg.any_ok = native == "gray8" || native == "gray16" || native == "rgb8" || native == "rgba8" || native == "rgb16";
     if (native == "gray1") return paths_for<gil::gray1_image_t>(plan, bytes, cfg);
+    if (native == "gray2") return paths_for<gil::gray2_image_t>(plan, bytes, cfg);
     if (native == "gray4") return paths_for<gil::gray4_image_t>(plan, bytes, cfg);
     if (native == "gray8") return paths_for<gil::gray8_image_t>(plan, bytes, cfg);
     if (native == "gray16") return paths_for<gil::gray16_image_t>(plan, bytes, cfg);
@@ -200,6 +206,7 @@ Outcome paths(Json const& plan)
     if (native == "rgb8") return paths_for<gil::rgb8_image_t>(plan, bytes, cfg);
     if (native == "rgb16") return paths_for<gil::rgb16_image_t>(plan, bytes, cfg);
     if (native == "rgba8") return paths_for<gil::rgba8_image_t>(plan, bytes, cfg);
+    if (native == "rgba16") return paths_for<gil::rgba16_image_t>(plan, bytes, cfg);
     if (native == "cmyk8") return paths_for<gil::cmyk8_image_t>(plan, bytes, cfg);
     Outcome o; o.cls = "skipped:variant"; return o;
 }
@@ -209,10 +216,10 @@ Format make_format()
     Format f;
     f.name = "tiff"; f.ext = "tif";
     f.variants = g_fmt_variants();
-    f.native_types = {"gray1", "gray4", "gray8", "gray16", "gray32f", "rgb8", "rgb16", "rgba8", "cmyk8"};
+    f.native_types = {"gray1", "gray2", "rgba16", "gray4", "gray8", "gray16", "gray32f", "rgb8", "rgb16", "rgba8", "cmyk8"};
     f.convert_types = {"gray8", "rgb8", "rgba8"};
     f.devices = {"TIFF", "istream", "name"};
-    f.write_types = {"gray1", "gray4", "gray8", "gray16", "gray32f", "rgb8", "rgb16", "rgba8", "cmyk8"};
+    f.write_types = {"gray1", "gray2", "gray4", "gray8", "gray16", "gray32f", "rgb8", "rgb16", "rgba8", "cmyk8"};
     f.write_options = {"lzw", "deflate", "packbits", "tile", "tile32"};
     f.roundtrip = roundtrip; f.paths = paths;
     f.make = make; f.read = read; f.fields = fields; f.declared_pixels = declared;
